@@ -54,6 +54,8 @@ func replay(cw *caseWriter, path string) {
 			c11exec(cw, tag, in)
 		case 12:
 			c12replay(cw, tag, in)
+		case 1201:
+			cvExec(cw, tag, in)
 		case 14:
 			c14replay(cw, tag, in)
 		case 8:
